@@ -16,6 +16,7 @@ import Ymq.Lemmas.Stage2Totient
 import Ymq.Lemmas.Stage2Algebra
 import Ymq.Lemmas.Stage2Ladders
 import Ymq.Lemmas.Stage2Exp
+import Ymq.Lemmas.Stage2ExpLarge
 import Ymq.Lemmas.Params
 
 namespace Ymq.C16
@@ -201,6 +202,54 @@ theorem pm1_nothing_above {d1 d2 l : Nat} (h6 : 6 ∣ d1) (hd : 0 < d1) (hl : pm
   have h2 : l ≤ (k + 1) * l := Nat.le_mul_of_pos_left _ (by omega)
   omega
 
+/-- what the correspondence runs compare with the code: `*Hits l` ⇔ some positive multiple of `l` is a
+grid value (for an element of exact order `l` this is "the factor is found in stage 2"). -/
+theorem ecm_hits_exact {d1 d2 l : Nat} (hd : 0 < d1) (hl : 0 < l) :
+    ecmHits d1 d2 l = true ↔ ∃ m, 0 < m ∧ l ∣ m ∧ ecmIsGrid d1 d2 m = true := by
+  unfold ecmHits
+  apply hitsUpTo_iff hl
+  intro m hm
+  have h1 := sym_grid_le (fun b hb => (ecmBaby_iff.mp hb).2.1) (symIsGrid_sound hd hm)
+  obtain ⟨i, _, hgi, _, _⟩ := symIsGrid_sound hd hm
+  simp only [isGiant, Bool.and_eq_true, decide_eq_true_eq] at hgi
+  unfold symEff at h1
+  unfold symMax
+  obtain ⟨k, hk⟩ : ∃ k, giantHi Stage2Arms.ecmGiant d2 = k + 1 := ⟨giantHi Stage2Arms.ecmGiant d2 - 1, by omega⟩
+  rw [hk] at h1 ⊢
+  have : (k + 1) * d1 = k * d1 + d1 := by ring
+  simp only [Nat.add_sub_cancel] at h1
+  omega
+
+theorem pp1_hits_exact {d1 d2 l : Nat} (h6 : 6 ∣ d1) (hd : 0 < d1) (hl : 0 < l) :
+    pp1Hits d1 d2 l = true ↔ ∃ m, 0 < m ∧ l ∣ m ∧ pp1IsGrid d1 d2 m = true := by
+  unfold pp1Hits
+  apply hitsUpTo_iff hl
+  intro m hm
+  have h1 := sym_grid_le (fun b hb => ((pp1Baby_iff h6 hd).mp hb).2.1) (symIsGrid_sound hd hm)
+  obtain ⟨i, _, hgi, _, _⟩ := symIsGrid_sound hd hm
+  simp only [isGiant, Bool.and_eq_true, decide_eq_true_eq] at hgi
+  unfold symEff at h1
+  unfold symMax
+  obtain ⟨k, hk⟩ : ∃ k, giantHi Stage2Arms.pp1Giant d2 = k + 1 := ⟨giantHi Stage2Arms.pp1Giant d2 - 1, by omega⟩
+  rw [hk] at h1 ⊢
+  have : (k + 1) * d1 = k * d1 + d1 := by ring
+  simp only [Nat.add_sub_cancel] at h1
+  omega
+
+theorem pm1_hits_exact {d1 d2 l : Nat} (h6 : 6 ∣ d1) (hd : 0 < d1) (hl : 0 < l) :
+    pm1Hits d1 d2 l = true ↔ ∃ m, 0 < m ∧ l ∣ m ∧ pm1IsGrid d1 d2 m = true := by
+  have hdeg : 1 ≤ pm1Deg d1 := by rw [pm1Deg_eq h6 hd]; omega
+  unfold pm1Hits pm1IsGrid
+  apply hitsUpTo_iff hl
+  intro m hm
+  have h1 := pm1_grid_le h6 hd (pm1IsGridDeg_sound hd hdeg hm)
+  have h2 : (d2 - 1 - pm1Deg d1) * d1 ≤ (d2 + 1) * d1 := Nat.mul_le_mul_right _ (by omega)
+  have h3 : (d2 + 1) * d1 = d2 * d1 + d1 := by ring
+  have h4 : 6 ≤ d1 := Nat.le_of_dvd hd h6
+  obtain ⟨q, r, hq, _, _⟩ := pm1IsGridDeg_sound hd hdeg hm
+  have h5 : 1 * d1 ≤ d2 * d1 := Nat.mul_le_mul_right _ (by omega)
+  omega
+
 /-! ## 2. Algebra: a grid value divisible by the missing prime makes a factor vanish -/
 
 /-- `pm1_hit` (P-1; C17 supplies `p − 1 ∣ E·m` for `m` a multiple of the one missing prime):
@@ -249,6 +298,11 @@ theorem chebyshev_spec {R : Type*} [CommRing R] (g : R) (k : Nat) :
 theorem exp_modn_spec {M : Type*} [CommMonoid M] (g : M) (e : Nat) (he : e < 2 ^ 64) :
     expModn (· * ·) 1 g e = some (g ^ e) :=
   expModn_eq g e he
+
+/-- `exp_modn_large(g, e) = g^e` for every `e < 2^1024` (6-bit windows), and no index of `g_smalls` is out of range. -/
+theorem exp_modn_large_spec {M : Type*} [CommMonoid M] (g : M) (e : Nat) (he : e < 2 ^ 1024) :
+    expModnLarge (· * ·) 1 g e = some (g ^ e) :=
+  expModnLarge_eq g e he
 
 /-- `gcd_factors`/`find_factors`: for a sequence with increasing gcds (`G i ∣ G j` for `i ≤ j`, all
 positive) the returned list multiplies to `gcd_last / gcd_first`, every part is `> 1`, no
@@ -599,6 +653,70 @@ theorem ecm_arm_covers {b1 b2 : Nat} (hc : (b1, b2) ∈ ecmCalls) {lab d1 d2 : N
     · exact absurd (Nat.dvd_of_mod_eq_zero h) hnd
     · exact h
 
+/-- ECM128 (`ecm128`, `ecm_semiprime`) with a hard-wired `(B1, B2)` — incl. (16, 660), (40, 1080), (50, 1920) where
+`d1/2 > B1`: **every** prime `l` with `B1 ≤ l ≤ effective B2` of the selected
+row divides a value of the grid (so it is found under C17 + `ecm_hit`), whether below or above `d1/2`. -/
+theorem ecm128_arm_covers {b1 b2 : Nat} (hc : (b1, b2) ∈ ecm128Calls) {lab d1 d2 : Nat}
+    (hsel : Stage2.stage2Select b2 1 = some (lab, d1, d2)) {l : Nat} (hp : l.Prime) (hlo : b1 ≤ l)
+    (hhi : l ≤ ecm128Eff d1 d2) : ecm128Hits d1 d2 l = true := by
+  have hrow : (lab, d1, d2) ∈ Stage2.ecmTable := by
+    obtain ⟨row, h1, h2, _⟩ := Ymq.Checked.nearestRow_spec Stage2.ecmTable (by decide) b2 1
+    unfold Stage2.stage2Select at hsel
+    rw [hsel] at h1; cases h1; exact h2
+  have hok := List.all_eq_true.mp rows_ok.1 _ hrow
+  simp only [rowOk, Bool.and_eq_true, beq_iff_eq, decide_eq_true_eq] at hok
+  obtain ⟨⟨⟨h6, hd2⟩, hd⟩, hfac⟩ := hok
+  have h6' : 6 ∣ d1 := Nat.dvd_of_mod_eq_zero h6
+  have hd1le : d1 ≤ 11741730 := by
+    have : (Stage2.ecmTable.all fun r => decide (r.2.1 ≤ 11741730)) = true := by decide
+    simpa using List.all_eq_true.mp this _ hrow
+  have hd2le : d2 ≤ 4194304 := by
+    have : (Stage2.ecmTable.all fun r => decide (r.2.2 ≤ 4194304)) = true := by decide
+    simpa using List.all_eq_true.mp this _ hrow
+  -- l does not divide d1: all prime factors of d1 are below b1
+  have hprimes := List.all_eq_true.mp arms_d1_primes_below_b1.1 (b1, b2)
+    (List.mem_append_left _ (List.mem_append_right _ hc))
+  have hnd : ¬ l ∣ d1 := by
+    intro hdv
+    unfold d1PrimesBelow at hprimes
+    simp only [hsel] at hprimes
+    unfold factorsOk at hfac
+    cases hlf : lookupFactors d1 with
+    | none => simp [hlf] at hfac
+    | some fs =>
+      simp only [hlf, Bool.and_eq_true, beq_iff_eq] at hfac hprimes
+      obtain ⟨pe, hmem, heq⟩ := prime_dvd_valOf hp fs hfac.2 (by rw [hfac.1]; exact hdv)
+      have := List.all_eq_true.mp hprimes pe hmem
+      simp only [decide_eq_true_eq] at this
+      omega
+  have heffv : ecm128Eff d1 d2 = d2 * d1 + d1 / 2 - 1 := by
+    unfold ecm128Eff symEff; rw [ecm128GiantHi d2 hd2]; simp
+  rcases Nat.lt_or_ge (d1 / 2) l with hbig | hsmall
+  · -- direct cover
+    have hgrid := (ecm128_cover h6' hd hd2 hp hnd hbig (by rw [← heffv]; exact hhi)).1
+    unfold ecm128Hits hitsUpTo
+    rw [anyBelow_iff]
+    refine ⟨0, ?_, by simpa using hgrid⟩
+    unfold symMax; rw [ecm128GiantHi d2 hd2]
+    have : l ≤ (d2 + 1) * d1 := by
+      have : (d2 + 1) * d1 = d2 * d1 + d1 := by ring
+      omega
+    exact Nat.div_pos this hp.pos
+  · -- below d1/2: the decided gap check
+    have hcont := List.all_eq_true.mp arms_contiguous_ecm128 (b1, b2) hc
+    unfold contiguous at hcont
+    simp only [hsel, if_true] at hcont
+    unfold gapCovered at hcont
+    have hmem : l ∈ List.range' b1 (d1 / 2 + 1 - b1) := by
+      rw [List.mem_range'_1]; omega
+    have := List.all_eq_true.mp hcont l hmem
+    have hl64 : l < 2 ^ 64 := by omega
+    simp only [Bool.or_eq_true, Bool.not_eq_true', isPrimeTD_of_prime hp hl64, decide_eq_true_eq] at this
+    rcases this with (h | h) | h
+    · exact absurd h (by simp)
+    · exact absurd (Nat.dvd_of_mod_eq_zero h) hnd
+    · exact h
+
 /-! ### composition: cover + algebra -/
 
 /-- P-1: a prime `p` with `p − 1 ∣ E·l` (C17: `E` the stage-1 exponent, `l ≤ effective B2` the one missing
@@ -642,6 +760,10 @@ example : (5 : ZMod 11) ^ (1 * 5) = 1 ∧ (11 - 1 ∣ 2 * 5) := by decide
 example : ((-1 : ZMod 7) * (-1) = 1) ∧ ((-1 : ZMod 7) ^ (4 * 2) = 1) := by decide
 example : expModn (· * ·) 1 (3 : ZMod 7) 6 = some 1 := by
   rw [exp_modn_spec _ _ (by norm_num)]; decide
+example : (2 ^ 70 + 5 < 2 ^ 1024) ∧ expModnLarge (· * ·) 1 (1 : ZMod 7) (2 ^ 70 + 5) = some 1 := by
+  have h : 2 ^ 70 + 5 < 2 ^ 1024 :=
+    lt_of_lt_of_le (show 2 ^ 70 + 5 < 2 ^ 71 by norm_num) (Nat.pow_le_pow_right (by decide) (by decide))
+  exact ⟨h, by rw [exp_modn_large_spec _ _ h, one_pow]⟩
 example : chebV (3 : ZMod 7) 4 = 5 := by decide
 example : gcdFactors 1001 [1, 7, 7, 77, 1001] (fun _ => false) = some ([7, 11, 13], 1) := by decide
 example : guard 15 (Nat.gcd 15 9) = some (3, 5) := by decide
